@@ -22,8 +22,8 @@ from ..oracles import outcome
 
 ID = 'C09'
 RULE = ("Hypothesis: shared conversion generator, both verdicts (valid, mutated, arbitrary), every dict/list replaced by a recording spy; "
-        "snapshot-before == snapshot-after and no mutator call recorded, for from_data, convert, Cls.from_data, keyword construction and "
-        "into_data of the typed result. Non-trivial = the value contains a mapping that passes through an internally tagged union, or a "
+        "snapshot-before == snapshot-after and no mutator call recorded, for from_data, convert, Cls.from_data, keyword / positional construction, "
+        "make_unchecked, from_dict_unchecked (with defaulted fields left out) and into_data of the typed result. Non-trivial = the value contains a mapping that passes through an internally tagged union, or a "
         "dataclass mapping (aliases/duplicates/extras), or a nested container below the root; distinct by (type spec, value).")
 ASSUMPTIONS = ["mutation through a C-level API that bypasses the overridden methods of dict/list subclasses is caught by the snapshot only"]
 
@@ -102,20 +102,29 @@ def check(case: t.Any, ctx: Ctx) -> None:
         ('from_data', lambda v: pane.from_data(v, T)),
         ('convert', lambda v: pane.convert(v, T)),
     ]
+    named: t.Any = None
     if isinstance(nd, cg.ClsNode):
         calls.append(('Cls.from_data', lambda v: T.from_data(v)))
         if tg.is_map(v0) and all(isinstance(k, str) and k.isidentifier() for k in v0):
             calls.append(('Cls(**kw)', lambda v: T(**v)))
+        if tg.is_map(v0):
+            # the other construction paths take python field names: re-key the entries that name a field (defaults stay omitted)
+            named = {nd.by_key[k][0].name: x for (k, x) in v0.items() if isinstance(k, str) and k in nd.by_key}
+            calls.append(('Cls.from_dict_unchecked', lambda v: T.from_dict_unchecked(v)))
+            calls.append(('Cls.make_unchecked(**kw)', lambda v: T.make_unchecked(**v)))
+            calls.append(('Cls(**named)', lambda v: T(**v)))
+        if tg.is_seq(v0) and not isinstance(v0, range):
+            calls.append(('Cls(*args)', lambda v: T(*v)))
     for (what, f) in calls:
-        v = spyify(v0)
+        v = spyify(named if what in ('Cls.from_dict_unchecked', 'Cls.make_unchecked(**kw)', 'Cls(**named)') else v0)
         before = snapshot(v)
         del LOG[:]
         (k, res) = outcome(lambda: f(v))
         log = list(LOG)
         after = snapshot(v)
         ctx.evaluated()
-        if what == 'Cls(**kw)':
-            log = []   # ** unpacking copies the mapping; only the snapshot is meaningful
+        if what in ('Cls(**kw)', 'Cls.make_unchecked(**kw)', 'Cls(**named)', 'Cls(*args)'):
+            log = []   # * / ** unpacking copies the outer container; only the snapshot is meaningful
         if before != after or log:
             ctx.fail('input-unchanged', f"{what}/{nd.kind}", f"{what} on T = {nd.render()[:300]} ({'accepted' if k == 'ok' else 'rejected'}): "
                      f"mutating calls {log[:5]}; before {before[:200]} after {after[:200]}")
